@@ -25,7 +25,7 @@ def _api():
     from sympde.topology.space import ScalarFunction, VectorFunction, IndexedVectorFunction
     from sympde.calculus import grad, dot, inner, div, curl, laplace
     from sympde.expr.expr import BilinearForm, LinearForm, integral, Functional
-    from sympde.expr.evaluation import TerminalExpr, _unpack_functions
+    from sympde.expr.evaluation import TerminalExpr, _unpack_functions, InterfaceExpression
     from sympde.core import Constant
     return locals()
 
@@ -59,6 +59,8 @@ class World:
         self.nn = m['NormalVector']('nn')
         self.faces = list(dom.boundary.args) if isinstance(dom.boundary, m['Union']) else [dom.boundary]
         self.coords = list(dom.coordinates)
+        self.I = dom.interfaces if two_patch else None
+        self.side_faces = [self.I.minus, self.I.plus] if two_patch else []
 
 
 def coef(rng, w):
@@ -157,6 +159,17 @@ def gen_form(rng, w):
         if zero:
             e = e - e
         ints.append((reg, e))
+    if w.I is not None and kind == 'bilinear' and not zero and rng.random() < 0.5:
+        # an interface integral whose same-side pieces land on the two side faces, together with explicit boundary
+        # integrals on those faces (added after seeded change C06-2, which lost the explicit term)
+        su = [t for t in trials if not isinstance(t, w.m['VectorFunction'])]
+        sv = [t for t in tests if not isinstance(t, w.m['VectorFunction'])]
+        if su and sv:
+            from sympde.calculus import jump
+            u0, v0 = su[0], sv[0]
+            ints.append((w.I, w.csts[0] * jump(u0) * jump(v0)))
+            for fc in rng.sample(w.side_faces, rng.choice([1, 2])):
+                ints.append((fc, coef(rng, w) * u0 * v0))
     return kind, tests, trials, ints
 
 
@@ -240,14 +253,31 @@ def analyse(ctx, w, kind, tests, trials, ints, c, o):
     fu = list(m['_unpack_functions'](trials)) if kind == 'bilinear' else []
     # expected regions and region integrands, computed independently
     exp = {}
+    n_iface = 0
     for reg, e in ints:
+        if w.I is not None and reg is w.I:
+            from sympde.calculus.core import Jump
+            same_side = e
+            for j in list(e.atoms(Jump)):
+                same_side = same_side.subs(j, j.args[0])       # c*[u][v]: the same-side pieces are c*u*v on both faces
+            for fc in w.side_faces:
+                exp.setdefault(fc, S.Zero)
+                exp[fc] += same_side
+            n_iface += 1
+            continue
         for r in members(w, reg):
             exp.setdefault(r, S.Zero)
             exp[r] += e
     got = {}
+    n_ikern = 0
     for k in ks:
+        if isinstance(k, m['InterfaceExpression']):
+            n_ikern += 1            # mixed-side kernels are C07's subject; here only their presence matters
+            continue
         got.setdefault(k.target, [])
         got[k.target].append(k.expr)
+    if o is not None and n_iface and n_ikern != 2:
+        o.fail('iface-kernels:' + name, 'an interface integral c*[u][v] must give two mixed-side kernels, got %d' % n_ikern)
     return name, ks, ft, fu, exp, got
 
 
@@ -331,7 +361,7 @@ def run(ctx, n, c, o):
                 ms = [[k2, A('none') if t is None else t, A('none') if u is None else u] for k2, (t, u) in enumerate(tags)]
                 lines.append('C06 blocks %d %d %s' % (nt, nu, dumps(ms)))
                 payload.append((name, r, monos, rows, nt, nu))
-        if c is not None and len(ints) > 1:
+        if c is not None and len(ints) > 1 and not any(w.I is not None and reg is w.I for reg, _ in ints):
             regs = sorted({str(r) for reg, _ in ints for r in members(w, reg)})
             ts = [[[regs.index(str(r)) for r in members(w, reg)], k2] for k2, (reg, _) in enumerate(ints)]
             lines.append('C06 group %s' % dumps(ts))
